@@ -231,8 +231,8 @@ Proof.
     + rewrite Hi.
       assert (Harm : let '(r, s1) := rp_arm rp_fixed W s (rp_m_seq m) in
                      let '(r', a1) := (if rp_abs_fresh W a (rp_m_seq m)
-                                       then (Accept, rp_abs_accept a (rp_m_seq m))
-                                       else (RejReplay, a)) in
+                                       then (RpAccept, rp_abs_accept a (rp_m_seq m))
+                                       else (RpRejReplay, a)) in
                      r = r' /\ rp_R s1 a1).
       { unfold rp_arm.
         pose proof (rp_validate_unarmed W s a (rp_m_seq m) HR Ha) as HV.
@@ -311,9 +311,9 @@ Qed.
 (* a step either leaves the accepted set alone or puts the (fresh) number in front of it *)
 Lemma rp_abs_recv_cases : forall W b12 a m,
   let '(r, a1) := rp_abs_recv W b12 a m in
-  (r = Accept /\ rp_abs_fresh W a (rp_m_seq m) = true /\ rp_m_auth m = Genuine /\
+  (r = RpAccept /\ rp_abs_fresh W a (rp_m_seq m) = true /\ rp_m_auth m = RpGenuine /\
    a1 = rp_abs_accept a (rp_m_seq m)) \/
-  (r <> Accept /\ a1 = a).
+  (r <> RpAccept /\ a1 = a).
 Proof.
   intros W b12 a m. unfold rp_abs_recv.
   destruct (rp_a_armed a).
@@ -360,7 +360,7 @@ Qed.
 
 (* forged messages are invisible to the specification *)
 Lemma rp_abs_recv_forged : forall W b12 a m,
-  rp_m_auth m = Forged -> snd (rp_abs_recv W b12 a m) = a /\ fst (rp_abs_recv W b12 a m) <> Accept.
+  rp_m_auth m = RpForged -> snd (rp_abs_recv W b12 a m) = a /\ fst (rp_abs_recv W b12 a m) <> RpAccept.
 Proof.
   intros W b12 a m Hf. unfold rp_abs_recv. rewrite Hf.
   destruct (rp_a_armed a); [destruct (negb _)|]; cbn; split; auto; discriminate.
@@ -382,7 +382,7 @@ Proof.
       destruct (rp_abs_run W b12 a1 (filter rp_is_genuine t)) as [rs' a2'].
       cbn [fst snd rp_genuine_verdicts] in *. rewrite Eg.
       destruct IH as [-> ->]. auto.
-    + assert (Em : rp_m_auth m = Forged).
+    + assert (Em : rp_m_auth m = RpForged).
       { unfold rp_is_genuine in Eg. destruct (rp_m_auth m); congruence. }
       pose proof (rp_abs_recv_forged W b12 a m Em) as [Hs _].
       destruct (rp_abs_recv W b12 a m) as [r a1]. cbn [snd] in Hs. subst a1.
@@ -415,9 +415,9 @@ Proof.
 Qed.
 
 Lemma rp_forged_obs : forall W b12 s a m,
-  rp_R s a -> rp_m_auth m = Forged ->
+  rp_R s a -> rp_m_auth m = RpForged ->
   rp_obs (snd (rp_recv rp_fixed W b12 s m)) = rp_obs s /\
-  fst (rp_recv rp_fixed W b12 s m) <> Accept.
+  fst (rp_recv rp_fixed W b12 s m) <> RpAccept.
 Proof.
   intros W b12 s a m HR Hf.
   pose proof HR as (Hu & Hi & Hrest).
@@ -441,9 +441,9 @@ Proof.
 Qed.
 
 Theorem rp_forgery_no_trace : forall W b12 s m,
-  rp_reachable W b12 s -> rp_m_auth m = Forged ->
+  rp_reachable W b12 s -> rp_m_auth m = RpForged ->
   rp_obs (snd (rp_recv rp_fixed W b12 s m)) = rp_obs s /\
-  fst (rp_recv rp_fixed W b12 s m) <> Accept.
+  fst (rp_recv rp_fixed W b12 s m) <> RpAccept.
 Proof.
   intros W b12 s m Hr Hf. destruct (rp_reachable_R W b12 s Hr) as [a [HR _]].
   eapply rp_forged_obs; eauto.
@@ -473,10 +473,10 @@ Theorem rp_fresh_accepted : forall W b12 h m,
   let acc := rp_accepted rp_fixed W b12 rp_init h in
   let s := snd (rp_run rp_fixed W b12 rp_init h) in
   rp_initial s = false ->
-  rp_m_auth m = Genuine -> rp_m_seq m < rp_seq_max ->
+  rp_m_auth m = RpGenuine -> rp_m_seq m < rp_seq_max ->
   ((forall x, In x acc -> x < rp_m_seq m) \/
    (~ In (rp_m_seq m) acc /\ forall x, In x acc -> x - rp_m_seq m < rp_weff W)) ->
-  fst (rp_recv rp_fixed W b12 s m) = Accept.
+  fst (rp_recv rp_fixed W b12 s m) = RpAccept.
 Proof.
   intros W b12 h m acc s Hini Hg Hlt Hcase.
   subst acc s. unfold rp_accepted in Hcase.
